@@ -84,6 +84,23 @@ Resign == \E n \in DOMAIN h.votes, what \in {"blk", "rnd", "idx", "none"} :
                      [] what = "rnd" -> [x EXCEPT !.sr = 2]
                      [] what = "idx" -> [x EXCEPT !.si = OtherIdx(x.si)]
                      [] OTHER        -> [x EXCEPT !.sb = 0]])
+\* replay a WHOLE vote set: the same voters' votes of another index / step (e.g. the prevote quorum presented as precommits) /
+\* round, with the seat counts those credentials really have; or their signatures over another block / round / index
+ReplaySet == \E what \in {"idx", "step", "seed"} :
+          LET vs == h.votes
+              alt(x) == CASE what = "idx"  -> [x EXCEPT !.ci = OtherIdx(x.ci)]
+                          [] what = "step" -> [x EXCEPT !.cs = StepPrevote]
+                          [] OTHER         -> [x EXCEPT !.cd = 2]
+              seats(x) == IF Member(F, x.v) /\ x.cs \in 1..3 THEN [x EXCEPT !.j = Max0(Seat(F, x.v, h.declV, x.ci, x.cs, x.cd))] ELSE x IN
+          /\ vs # <<>>
+          /\ Forge([h EXCEPT !.votes = [n \in DOMAIN vs |-> seats(alt(vs[n]))]])
+ResignSet == \E what \in {"blk", "rnd", "idx"} :
+          LET vs == h.votes
+              alt(x) == CASE what = "blk" -> [x EXCEPT !.sb = IF x.sb = 0 THEN 0 ELSE 2]
+                          [] what = "rnd" -> [x EXCEPT !.sr = 2]
+                          [] OTHER        -> [x EXCEPT !.si = OtherIdx(x.si)] IN
+          /\ vs # <<>>
+          /\ Forge([h EXCEPT !.votes = [n \in DOMAIN vs |-> alt(vs[n])]])
 Reorder == \E n \in DOMAIN h.votes : n < Len(h.votes) /\
           LET vs == h.votes IN
           Forge([h EXCEPT !.votes = [m \in DOMAIN vs |-> IF m = n THEN vs[n + 1] ELSE IF m = n + 1 THEN vs[n] ELSE vs[m]]])
@@ -121,7 +138,7 @@ PropAlter == \E what \in {"idx", "step", "seed", "foreign", "corrupt"} :
                      [] what = "seed" -> [x EXCEPT !.cd = 2]
                      [] OTHER         -> [x EXCEPT !.pb = what]])
 
-Next == \/ Drop \/ Dup \/ Add \/ AlterCred \/ Inflate \/ Resign \/ Reorder \/ CorruptAgg
+Next == \/ Drop \/ Dup \/ Add \/ AlterCred \/ Inflate \/ Resign \/ ReplaySet \/ ResignSet \/ Reorder \/ CorruptAgg
         \/ DeclareV \/ DeclareP \/ SetVidx \/ SetPidx
         \/ SwapProposer \/ BadPriority \/ PropInflate \/ PropAlter
 Spec == Init /\ [][Next]_vars
